@@ -1,4 +1,4 @@
-//go:build go1.21
+//go:build go1.21 && verifapi
 
 package main
 
@@ -25,12 +25,12 @@ import (
 	"github.com/aquilax/hranoprovod-cli/v3/resolver"
 )
 
-type vAPICmd struct {
-	Name    string
-	UsesLog bool
-	UsesDB  bool
-	Run     func(logR, dbR io.Reader, out io.Writer, x string) error
-}
+// This file is the only one that names unexported-by-documentation internals (the configuration structs of the internal
+// command packages). It is compiled under the build tag verifapi; when a refactoring changes those structs so that the
+// file no longer compiles, the driver builds without the tag (verif_apistub_test.go) and only the function-level fault
+// injection of C10/C17 is lost: everything observed through the command line keeps running.
+
+const vAPIAvailable = true
 
 func vRepCfg(out io.Writer, mod func(*reporter.Config)) reporter.Config {
 	c := reporter.NewDefaultConfig()
